@@ -9,7 +9,9 @@ A quarter of the runs do the mirror image: one TCPClient component against a sim
 
 Oracle (each clause quotes the statement):
   * "exactly one connect, then ... read events ..., then exactly one disconnect, and nothing for that socket afterwards": an automaton per
-    socket object, driven online by an observer component on the server's channel (C12/stream/...);
+    socket object, driven online by an observer component on the server's channel (C12/stream/...); an `error(sock, ...)` event dispatched
+    after the socket's disconnect is "something afterwards" too (C12/after-disconnect/error-event/<poller>) - error events BEFORE the
+    disconnect are not judged;
   * "the received bytes as read events in order without loss or duplication": the interposer records what recv() returned for the socket
     (ground truth of "received"); the concatenated read payloads must be a prefix of it at all times and equal to it at every quiescent
     point and at the disconnect (C12/reads/...).  When the peer ended the connection in an orderly way (everything sent, then FIN / close
@@ -51,7 +53,7 @@ LEVEL_TEXT = ('seeded enumeration of connection histories x network faults on th
               'real AF_UNIX sockets: every history is executed under all three pollers; per-socket automaton, byte-exact read stream against what '
               'recv() returned, residue walk over server and poller at every quiescent point, cross-poller comparison; sampling, not proof')
 LEVEL_NOTE = ('trusted: the socket interposer (addresses, fault injection, record of recv results), the kernel\'s AF_UNIX semantics as stand-in for TCP '
-              '(reset = close with unread data), quiescence = 3 idle loop iterations with faults off; an `error` event is never judged')
+              '(reset = close with unread data), quiescence = 5 loop iterations without observable progress with faults off; `error` events are judged only after a disconnect')
 RULE = ('each run = one history (connections, peer actions, server writes/closes incl. late ones, fault kinds+rate, bufsize, SO_SNDBUF) drawn from the tape and '
         'executed under each poller; non-trivial = under every executed poller at least one connection went through connect, >= 1 read and disconnect AND the '
         'history contains a server-side write/close, an abort, a half-close, a stalled peer or a fired fault; distinct = digest of the full observer/action log')
@@ -61,13 +63,14 @@ REAL = ['circuits.net.sockets.Server/TCPServer/UNIXServer (_accept, _on_accept_d
         'circuits.core.manager.Manager (tick, dispatch, tasks)', 'Linux AF_UNIX stream sockets']
 STUBBED = ['socket class -> SimSocket (AF_UNIX behind simulated addresses, fault policy per recv/send/accept/connect)', 'select module -> zero-timeout shim (+EINTR)',
            'time() in net.sockets -> virtual clock', 'remote ends are harness Peers, never circuits components']
-ASSUMPTIONS = ['`error` events (and `exception` events of a rejected late write) are not part of the judged stream: only connect/read/disconnect are',
+ASSUMPTIONS = ['`error` events are judged in one respect only: none may name a socket after its disconnect was observed; error events before the disconnect and '
+               '`exception` events are not part of the judged stream',
                'a prefix of the sent bytes is accepted whenever the server closed first, a fatal fault hit the socket, the peer aborted, or the peer closed while '
                'server data for it was still unsent (the failing send legitimately ends the connection before the last bytes are read)',
                'pollers are compared only on histories where every action ran to quiescence and no fault fired in any of the three executions (otherwise timing and the '
                'independently drawn faults legitimately change what is read / when a close deferred by unsent data completes)',
                'client clause: only the pairing of connected/disconnected is judged']
-PROBES = ['late-write', 'late-close', 'abort', 'half-close', 'stalled-send-buffer-full', 'close-deferred-by-buffer', 'peer-close-while-writing', 'unix-server',
+PROBES = ['late-write', 'late-close', 'answer-close-while-peer-talks', 'write-then-peer-gone', 'readable-and-writable-round-ends-connection', 'abort', 'half-close', 'stalled-send-buffer-full', 'close-deferred-by-buffer', 'peer-close-while-writing', 'unix-server',
           'client-mode', 'client-reconnect', 'pollers-compared', 'echo-write', 'multi-conn', 'unsettled-action', 'cfg:Select', 'cfg:Poll', 'cfg:EPoll',
           'fault:short_read', 'fault:spurious_eagain_read', 'fault:recv_reset', 'fault:short_write', 'fault:transient_send_error', 'fault:fatal_send_error',
           'fault:accept_error', 'fault:poll_eintr', 'fault:connect_delay']
@@ -189,6 +192,7 @@ class Sub:
         self.faults0 = self.nfaults()
         self.progress = 0      # observable progress counters (see _settle)
         self.nev = 0
+        self.iter = 0
         self.on_recv = None
         NET.oplog = self._oplog
         ctx.stat('cfg:' + self.name)
@@ -215,6 +219,7 @@ class Sub:
 
     def step(self):
         self.pol.polls = 0
+        self.iter += 1
         return step(self.m)
 
     def _oplog(self, kind, sock, data):
@@ -263,8 +268,8 @@ def gen_server_plan(ch, cfg):
     plan['conns'] = [dict(echo=ch.chance(1, 4, 'echo'), reading=not ch.chance(1, 4, 'stalled')) for _ in range(nconn)]
     acts = []
     for _ in range(ch.randint(2, cfg['max_actions'], 'nactions')):
-        k = ch.weighted([6, 4, 2, 3, 1, 2, 2, 1], 'action')
-        kind = ['send', 'srv_write', 'srv_close', 'peer_close', 'abort', 'half_close', 'toggle_read', 'srv_big'][k]
+        k = ch.weighted([6, 4, 2, 3, 1, 2, 2, 1, 2, 1], 'action')
+        kind = ['send', 'srv_write', 'srv_close', 'peer_close', 'abort', 'half_close', 'toggle_read', 'srv_big', 'answer_close_talk', 'write_peer_gone'][k]
         i = ch.draw(nconn, 'conn')
         arg = None
         if kind == 'send':
@@ -275,6 +280,13 @@ def gen_server_plan(ch, cfg):
             arg = ch.choice(SIZES, 'nbytes')
         elif kind == 'srv_big':
             arg = cfg['big']
+        elif kind == 'answer_close_talk':
+            # the application answers and closes (close deferred by the unsent answer) while the peer keeps talking: in ONE poll round the socket is
+            # writable and readable, and handling the writable side ends the connection
+            arg = (ch.choice(SIZES[:5], 'nbytes'), ch.choice(SIZES[:5], 'nbytes'))
+        elif kind == 'write_peer_gone':
+            # a write is pending and the peer goes away (orderly, or reset if it has unread data) before the server polls again
+            arg = (ch.choice(SIZES[:5], 'nbytes'), ch.chance(1, 2, 'peer-aborts'))
         acts.append((kind, i, arg, ch.weighted([10, 1, 1], 'settle-mode')))
     plan['acts'] = acts
     plan['close_all'] = ch.chance(1, 8, 'server-close-all')
@@ -302,6 +314,21 @@ def run_server(ctx, plan, P, skip_late):
     def on_recv(sock, data):
         recvd.setdefault(sock.sim_id, bytearray()).extend(data)
     S.on_recv = on_recv
+
+    # reach probe only: which sockets did one poll round report readable AND writable (instance attribute `fire` of the poller, nothing is judged here)
+    seen_rw, both_rw = {}, {}
+    real_fire = poller.fire
+
+    def spy(event, *channels, **kw):
+        if event.name in ('_read', '_write') and event.args:
+            sid = getattr(event.args[0], 'sim_id', None)
+            it, names = seen_rw.get(sid, (None, ()))
+            names = (names if it == S.iter else ()) + (event.name,)
+            seen_rw[sid] = (S.iter, names)
+            if '_read' in names and '_write' in names:
+                both_rw[sid] = S.iter
+        return real_fire(event, *channels, **kw)
+    poller.fire = spy
 
     def cname(rec):
         return 'conn%d' % rec['conn']['idx'] if rec.get('conn') else 'sock#%d' % rec['sid']
@@ -386,6 +413,8 @@ def run_server(ctx, plan, P, skip_late):
             if rec['ndisc']:
                 fail('C12/stream/disconnect-twice', 'second disconnect event for socket #%d' % sid)
             rec['ndisc'] = 1
+            if both_rw.get(sid) is not None and S.iter - both_rw[sid] <= 1:
+                ctx.stat('readable-and-writable-round-ends-connection')
             check_reads(rec, 'at its disconnect')
             c = rec['conn']
             if c is not None:
@@ -409,8 +438,14 @@ def run_server(ctx, plan, P, skip_late):
             arrival(sock, 'late-close')
 
         def error(self, *args):
-            ctx.log('error', getattr(args[0], 'sim_id', -1) if args else -1)
-            tr('    observer: error %r', args[1:] if len(args) > 1 else args)       # (not counted as progress: a dead socket can produce these for ever)
+            sid = getattr(args[0], 'sim_id', -1) if args else -1
+            ctx.log('error', sid)
+            tr('    observer: error #%d %r', sid, args[1:] if len(args) > 1 else args)       # (not counted as progress: a dead socket can produce these for ever)
+            rec = recs.get(sid)
+            if rec is not None and rec['ndisc']:
+                # "then exactly one disconnect, and nothing for that socket afterwards": error events are judged only here
+                fail('C12/after-disconnect/error-event/%s' % S.name, 'error event %r for socket #%d was dispatched after its disconnect had been observed' % (
+                    args[1:], sid))
 
         @handler('exception', channel='*')
         def _on_exception(self, etype, value, *a, **k):
@@ -497,8 +532,32 @@ def run_server(ctx, plan, P, skip_late):
 
     def do(no, act):
         kind, i, arg, smode = act
-        c = conns[i]
         ctx.log('act', no, kind, i)
+        if kind == 'answer_close_talk':
+            ctx.stat('answer-close-while-peer-talks')
+            parts = [('srv_write', arg[0]), ('srv_close', None), ('send', (arg[1], [], False))]
+        elif kind == 'write_peer_gone':
+            ctx.stat('write-then-peer-gone')
+            parts = [('srv_write', arg[0]), ('abort' if arg[1] else 'peer_close', None)]
+        else:
+            parts = [(kind, arg)]
+        for k2, a2 in parts:      # the parts of a compound action follow each other without a loop iteration in between
+            one(k2, i, a2)
+        st['settled'] = smode == 0
+        if smode == 0:
+            S.quiesce(pump)
+            for c2 in conns:
+                r2 = c2['rec']
+                if r2 is not None and not r2['ndisc'] and not c2['reading'] and r2['issued'] > len(r2['sock'].sim_sent):
+                    ctx.stat('stalled-send-buffer-full')
+            checks(no)
+        else:
+            ctx.stat('unsettled-action')
+            tr('   (only %d loop iteration(s) before the next action)' % (smode == 1))
+            S.partial(pump, 1 if smode == 1 else 0)
+
+    def one(kind, i, arg):
+        c = conns[i]
         if c['pstate'] == 'none':
             if st['listening']:
                 open_conn(c)
@@ -554,18 +613,6 @@ def run_server(ctx, plan, P, skip_late):
         elif kind == 'toggle_read':
             c['reading'] = not c['reading']
             tr('conn%d: peer %s reading' % (i, 'resumes' if c['reading'] else 'stops'))
-        st['settled'] = smode == 0
-        if smode == 0:
-            S.quiesce(pump)
-            for c2 in conns:
-                r2 = c2['rec']
-                if r2 is not None and not r2['ndisc'] and not c2['reading'] and r2['issued'] > len(r2['sock'].sim_sent):
-                    ctx.stat('stalled-send-buffer-full')
-            checks(no)
-        else:
-            ctx.stat('unsettled-action')
-            tr('   (only %d loop iteration(s) before the next action)' % (smode == 1))
-            S.partial(pump, 1 if smode == 1 else 0)
 
     try:
         S.quiesce(pump)
